@@ -204,6 +204,8 @@ def inlined(facts, body, depth=0, stack=(), t1=True, t2=True, same_type=None):
         i += 1
     if t2 and unroll_array_loops(blocks, locals_):
         changed = True
+    if t2 and desugar_entry_handles(blocks, locals_):
+        changed = True
     if t2 and desugar_combinators(facts, body, blocks, locals_, depth, stack, t1):
         changed = True
     if t2 and desugar_adaptors(facts, body, blocks, locals_, depth, stack, t1):
@@ -601,6 +603,167 @@ def _combinator_key(c):
 _ONE_INSERT = {'std::collections::BTreeMap': ('insert', 2), 'std::collections::HashMap': ('insert', 2),
                'std::collections::BTreeSet': ('insert', 1), 'std::collections::HashSet': ('insert', 1),
                'std::vec::Vec': ('push', 1), 'std::collections::VecDeque': ('push_back', 1)}
+
+
+# ======================================================================================================
+# T3b — the map Entry API used through its handles (`match m.entry(k) { Vacant(v) => .. v.insert(x), Occupied(o) => .. o.get_mut() /
+# o.remove() }`) is rewritten into the plain calls it stands for: `m.contains_key(&k)` decides the arm, `v.insert(x)` is
+# `m.insert(k, x)`, `o.get() / get_mut() / into_mut()` is `m.get_mut(&k)` (known to be Some), `o.remove()` is `m.remove(&k)`,
+# `o.insert(x)` is `m.insert(k, x)`.  Only when every use of the entry and of its handles is one of these (otherwise untouched).
+# ======================================================================================================
+_ENTRY_MAPS = {'std::collections::BTreeMap': 1, 'std::collections::HashMap': 0}      # map type -> discriminant of Occupied
+_HANDLE_CALLS = {'Vacant': {'insert': 'vinsert', 'key': 'key'},
+                 'Occupied': {'get': 'get', 'get_mut': 'get', 'into_mut': 'get', 'remove': 'remove', 'insert': 'oinsert', 'key': 'key'}}
+
+
+def _uses_local(obj, local):
+    sj = repr(obj)
+    return ("'local': %d," % local) in sj or ("'local': %d}" % local) in sj
+
+
+def desugar_entry_handles(blocks, locals_):
+    changed = False
+    for ei in range(len(blocks)):
+        blk = blocks[ei]
+        t = blk['term']
+        if blk['cleanup'] or t['k'] != 'call' or t.get('target') is None or not t.get('callee'):
+            continue
+        c = t['callee']
+        mp = (c.get('self_ty') or {}).get('path')
+        if c.get('name') != 'entry' or mp not in _ENTRY_MAPS or len(t['args']) != 2 or t['dest']['proj']:
+            continue
+        if (c.get('def') or '') not in (mp + '::entry',):
+            continue
+        E = t['dest']['local']
+        occ_d = _ENTRY_MAPS[mp]
+        # classify every use of E and of the handles taken out of it
+        handles = {}      # local -> 'Vacant' | 'Occupied'
+        refs = {}         # local -> handle local it borrows
+        plan = []         # (kind, block index, stmt index or None)
+        ok = True
+        for _round in range(4):
+            n0 = (len(handles), len(refs))
+            for bi, b in enumerate(blocks):
+                for si, st in enumerate(b['stmts']):
+                    if st['k'] != 'assign' or st['place']['proj']:
+                        continue
+                    rv = st['rv']
+                    if rv.get('k') == 'use' and rv['op'].get('k') == 'move':
+                        pl = rv['op']['place']
+                        if pl['local'] == E and len(pl['proj']) == 2 and pl['proj'][0].get('k') == 'downcast' and pl['proj'][0].get('variant') in ('Vacant', 'Occupied'):
+                            handles[st['place']['local']] = pl['proj'][0]['variant']
+                        elif pl['local'] in handles and not pl['proj']:
+                            handles[st['place']['local']] = handles[pl['local']]
+                        elif pl['local'] in refs and not pl['proj']:
+                            refs[st['place']['local']] = refs[pl['local']]
+                    elif rv.get('k') == 'ref' and rv['place']['local'] in handles and not rv['place']['proj']:
+                        refs[st['place']['local']] = rv['place']['local']
+                    elif rv.get('k') == 'ref' and rv['place']['local'] in refs and [e.get('k') for e in rv['place']['proj']] == ['deref']:
+                        refs[st['place']['local']] = refs[rv['place']['local']]
+            if (len(handles), len(refs)) == n0:
+                break
+        if not handles:
+            continue
+        tracked = {E} | set(handles) | set(refs)
+        calls = []
+        for bi, b in enumerate(blocks):
+            for si, st in enumerate(b['stmts']):
+                used = [l for l in tracked if _uses_local(st, l)]
+                if not used:
+                    continue
+                if st['k'] in ('dead', 'live'):
+                    continue
+                if st['k'] == 'assign' and not st['place']['proj']:
+                    rv = st['rv']
+                    if rv.get('k') == 'discr' and rv['place']['local'] == E and not rv['place']['proj'] and st['place']['local'] not in tracked:
+                        plan.append(('discr', bi, si))
+                        continue
+                    if st['place']['local'] in handles or st['place']['local'] in refs:
+                        plan.append(('drop-stmt', bi, si))
+                        continue
+                ok = False
+            tt = b['term']
+            if tt is t:
+                continue
+            used = [l for l in tracked if _uses_local(tt, l)]
+            if not used:
+                continue
+            if tt['k'] == 'drop' and tt['place']['local'] in tracked and not tt['place']['proj']:
+                plan.append(('drop-term', bi, None))
+                continue
+            if tt['k'] == 'call' and tt.get('callee') and tt['args'] and tt.get('target') is not None and not tt['dest']['proj']:
+                a0 = tt['args'][0]
+                l0 = _plain_local(a0)
+                h = l0 if l0 in handles else refs.get(l0)
+                d = tt['callee'].get('def') or ''
+                nm = tt['callee'].get('name')
+                var = handles.get(h)
+                if h is not None and (var + 'Entry::') in d and nm in _HANDLE_CALLS[var] and not any(_uses_local(a, l) for a in tt['args'][1:] for l in tracked) \
+                        and tt['dest']['local'] not in tracked:
+                    calls.append((bi, _HANDLE_CALLS[var][nm]))
+                    continue
+            ok = False
+        if not ok or not any(k == 'discr' for k, _, _ in plan):
+            continue
+        # ---- rewrite
+        B = _Builder(blocks, locals_, t['span'])
+        m_op, k_op = t['args']
+        ml = _plain_local(m_op)
+        MM = B.local(locals_[ml]['ty'] if ml is not None else None)
+        KK = B.local(locals_[_plain_local(k_op)]['ty'] if _plain_local(k_op) is not None else None)
+        HAS = B.local(BOOL_TY)
+        st_map = c.get('self_ty')
+
+        def key_ref(stmts):
+            r = B.local({'k': 'ref', 'mut': False, 'ty': locals_[KK]['ty'], 's': '&?'})
+            stmts.append(B.assign(_pl(r), {'k': 'ref', 'mut': False, 'place': _pl(KK)}))
+            return r
+
+        def mcall(name):
+            return _pseudo_callee(name, None, st_map, mp + '::' + name)
+        blk['stmts'].append(B.use(MM, m_op))
+        blk['stmts'].append(B.use(KK, k_op))
+        r0 = key_ref(blk['stmts'])
+        blk['term'] = B.call(mcall('contains_key'), [_cp(MM), _mv(r0)], HAS, t['target'])
+        kill = set()
+        for kind, bi, si in plan:
+            if kind == 'discr':
+                stx = blocks[bi]['stmts'][si]
+                stx['rv'] = {'k': 'use', 'op': _cp(HAS)} if occ_d == 1 else {'k': 'unop', 'op': 'Not', 'op1': _cp(HAS)}
+            elif kind == 'drop-stmt':
+                kill.add(id(blocks[bi]['stmts'][si]))
+            elif kind == 'drop-term':
+                blocks[bi]['term'] = {'k': 'goto', 'target': blocks[bi]['term']['target']}
+        for b in blocks:
+            b['stmts'] = [x for x in b['stmts'] if id(x) not in kill]
+        for bi, what in calls:
+            b = blocks[bi]
+            tt = b['term']
+            dest, target = tt['dest'], tt['target']
+            if what == 'key':
+                r = key_ref(b['stmts'])
+                b['stmts'].append(B.assign(dest, {'k': 'use', 'op': _mv(r)}))
+                b['term'] = {'k': 'goto', 'target': target}
+                continue
+            tmp = B.local()
+            if what in ('vinsert', 'oinsert'):
+                after = B.block()
+                b['term'] = B.call(mcall('insert'), [_cp(MM), _cp(KK), tt['args'][1]], tmp, after)
+                if what == 'oinsert':
+                    blocks[after]['stmts'].append(B.assign(dest, {'k': 'use', 'op': _mv(tmp, list(SOME_P))}))
+                    blocks[after]['term'] = {'k': 'goto', 'target': target}
+                else:
+                    # `vacant.insert(x)` hands back a reference to the stored value
+                    r = key_ref(blocks[after]['stmts'])
+                    tmp2 = B.local()
+                    fin = B.block([B.assign(dest, {'k': 'use', 'op': _mv(tmp2, list(SOME_P))})], {'k': 'goto', 'target': target})
+                    blocks[after]['term'] = B.call(mcall('get_mut'), [_cp(MM), _mv(r)], tmp2, fin)
+            else:
+                r = key_ref(b['stmts'])
+                fin = B.block([B.assign(dest, {'k': 'use', 'op': _mv(tmp, list(SOME_P))})], {'k': 'goto', 'target': target})
+                b['term'] = B.call(mcall('get_mut' if what == 'get' else 'remove'), [_cp(MM), _mv(r)], tmp, fin)
+        changed = True
+    return changed
 
 
 CF = 'std::ops::ControlFlow'
